@@ -97,6 +97,27 @@ theorem run_compile (z : Bool) (env : Nat) (e : F) : ∀ (g : G) (f : Frame), Co
     simp only [evalF, compile, List.length_singleton]
     refine ⟨1, addOps g f.ctx 1, _, fun fuel => step_pushInt fuel g f i hpc hi hr.nolimit (by omega) hr.size, ?_, rfl, rfl, by ctx_tac⟩
     exact ⟨rfl, rfl, rfl, rfl, set_get_same _ _ _ (by rw [hr.size]; omega), fun j hj => set_get_ne _ _ _ _ (by omega), set_size _ _ _⟩
+  | flt x =>
+    intro g f hc hr henv hroom
+    simp only [compile, depth] at hc hroom
+    obtain ⟨hpc, hi⟩ := hc.head
+    simp only [evalF, compile, List.length_singleton]
+    refine ⟨1, addOps g f.ctx 1, _, fun fuel => step_pushFlt fuel g f x hpc hi hr.nolimit (by omega) hr.size, ?_, rfl, rfl, by ctx_tac⟩
+    exact ⟨rfl, rfl, rfl, rfl, set_get_same _ _ _ (by rw [hr.size]; omega), fun j hj => set_get_ne _ _ _ _ (by omega), set_size _ _ _⟩
+  | str x =>
+    intro g f hc hr henv hroom
+    simp only [compile, depth] at hc hroom
+    obtain ⟨hpc, hi⟩ := hc.head
+    simp only [evalF, compile, List.length_singleton]
+    refine ⟨1, addOps g f.ctx 1, _, fun fuel => step_pushStr fuel g f x hpc hi hr.nolimit (by omega) hr.size, ?_, rfl, rfl, by ctx_tac⟩
+    exact ⟨rfl, rfl, rfl, rfl, set_get_same _ _ _ (by rw [hr.size]; omega), fun j hj => set_get_ne _ _ _ _ (by omega), set_size _ _ _⟩
+  | nul =>
+    intro g f hc hr henv hroom
+    simp only [compile, depth] at hc hroom
+    obtain ⟨hpc, hi⟩ := hc.head
+    simp only [evalF, compile, List.length_singleton]
+    refine ⟨1, addOps g f.ctx 1, _, fun fuel => step_pushNull fuel g f hpc hi hr.nolimit (by omega) hr.size, ?_, rfl, rfl, by ctx_tac⟩
+    exact ⟨rfl, rfl, rfl, rfl, set_get_same _ _ _ (by rw [hr.size]; omega), fun j hj => set_get_ne _ _ _ _ (by omega), set_size _ _ _⟩
   | bin op a b iha ihb =>
     intro g f hc hr henv hroom
     simp only [compile, depth] at hc hroom
@@ -210,6 +231,47 @@ theorem run_compile (z : Bool) (env : Nat) (e : F) : ∀ (g : G) (f : Frame), Co
           · intro j hj; simp only [ht]; rw [set_get_ne _ _ _ _ (by omega), haft1.below j hj]
         | none =>
           have hstep := fun fuel => step_neg_err fuel g1 f1 hpcI' hI' hl1 (by rw [haft1.top]; omega) (by rw [haft1.top]; omega) (by rw [hva]; exact hn)
+          refine ⟨1 + k1, _, hrun1.fails (fun fuel => by rw [hstep fuel, hva]), by simp only [addOps_heap]; exact hheap1⟩
+      | err m =>
+        obtain ⟨k1, g1, hf1, hheap1⟩ := ha
+        exact ⟨k1, g1, hf1, hheap1⟩
+      | panic _ => trivial
+      | unsup _ => trivial
+      | diverge => trivial
+  | pos a iha =>
+    intro g f hc hr henv hroom
+    simp only [compile, depth] at hc hroom
+    have hca : CodeAt f.code f.pc (compile a) := hc.append_left
+    have hcop := hc.append_right
+    have ha := iha g f hca hr henv hroom
+    simp only [evalF]
+    cases hea : evalF z env g.heap a with
+    | mk h1 ra =>
+      rw [hea] at ha
+      cases ra with
+      | ok va =>
+        obtain ⟨k1, g1, f1, hrun1, haft1, hcfg1, hheap1, hctx1⟩ := ha
+        obtain ⟨hpcI, hI⟩ := hcop.head
+        have hpcI' : f1.pc < f1.code.size := by rw [haft1.code, haft1.pc]; exact hpcI
+        have hI' : f1.code[f1.pc]! = .pos := by rw [haft1.code, haft1.pc]; exact hI
+        have hs1 : f1.stack.size = stackSize := by rw [haft1.size]; exact hr.size
+        have hl1 : g1.cfg.opLimit = 0 := by rw [hcfg1]; exact hr.nolimit
+        have hda := depth_pos a
+        have hva : f1.stack[f1.top - 1]! = va := by
+          have : f1.top - 1 = f.top := by rw [haft1.top]; omega
+          rw [this, haft1.val]
+        simp only
+        cases hn : opPos va with
+        | some r =>
+          have hstep := fun fuel => step_pos_ok fuel g1 f1 r hpcI' hI' hl1 (by rw [haft1.top]; omega) hs1 (by rw [haft1.top]; omega) (by rw [hva]; exact hn)
+          refine ⟨1 + k1, _, _, hrun1.trans (fun fuel => hstep fuel), ?_, by simp only [addOps_cfg]; exact hcfg1, by simp only [addOps_heap]; exact hheap1, by ctx_tac⟩
+          have ht : f1.top - 1 = f.top := by rw [haft1.top]; omega
+          refine ⟨haft1.code, haft1.ctx, ?_, by simp only; rw [haft1.top], ?_, ?_, by simp only; rw [set_size, haft1.size]⟩
+          · simp only [haft1.pc, compile, List.length_append, List.length_singleton]; omega
+          · simp only [ht]; exact set_get_same _ _ _ (by rw [hs1]; omega)
+          · intro j hj; simp only [ht]; rw [set_get_ne _ _ _ _ (by omega), haft1.below j hj]
+        | none =>
+          have hstep := fun fuel => step_pos_err fuel g1 f1 hpcI' hI' hl1 (by rw [haft1.top]; omega) (by rw [haft1.top]; omega) (by rw [hva]; exact hn)
           refine ⟨1 + k1, _, hrun1.fails (fun fuel => by rw [hstep fuel, hva]), by simp only [addOps_heap]; exact hheap1⟩
       | err m =>
         obtain ⟨k1, g1, hf1, hheap1⟩ := ha
